@@ -673,3 +673,107 @@ package pokertable
 //@   ensures refused-changes-nothing: err != nil ==> playersSame(te) && seatsSame(te) && smSame(te)
 //@   ensures stayers-kept-with-their-chips: err == nil ==> forall(i, 0, 10, i < old(len(PS(te))) && !leavingID(playerIDs, old(PS(te)[i].PlayerID)) ==> inPS(te, old(PS(te)[i])))
 //@   ensures leavers-gone: err == nil ==> forall(j, 0, 10, j < len(PS(te)) ==> !leavingID(playerIDs, PS(te)[j].PlayerID))
+
+// ---- blinds (C12) and the action deadline (C15) ---------------------------------------------------
+
+//@ func (*tableEngine).UpdateBlind
+//@   property C12
+//@   requires te != nil && te.table != nil && St(te) != nil && St(te).BlindState != nil
+//@   modifies St(te).BlindState.Level, St(te).BlindState.Ante, St(te).BlindState.Dealer, St(te).BlindState.SB, St(te).BlindState.BB
+//@   ensures level-set: St(te).BlindState.Level == level && St(te).BlindState.Ante == ante && St(te).BlindState.Dealer == dealer && St(te).BlindState.SB == sb && St(te).BlindState.BB == bb
+//@   ensures running-hand-keeps-its-blinds: St(te).GameBlindState != nil && St(te).GameBlindState != St(te).BlindState ==>
+//@             St(te).GameBlindState.Level == old(St(te).GameBlindState.Level) && St(te).GameBlindState.Ante == old(St(te).GameBlindState.Ante)
+//@             && St(te).GameBlindState.Dealer == old(St(te).GameBlindState.Dealer) && St(te).GameBlindState.SB == old(St(te).GameBlindState.SB) && St(te).GameBlindState.BB == old(St(te).GameBlindState.BB)
+
+//@ func (*tableEngine).PlayerExtendActionDeadline
+//@   property C15
+//@   returns endAt, err
+//@   requires te != nil && te.table != nil && St(te) != nil
+//@   modifies St(te).CurrentActionEndAt, te.table.UpdateAt, te.table.UpdateSerial, log
+//@   ensures moved-by-exactly-the-request: err == nil && St(te).CurrentActionEndAt == old(St(te).CurrentActionEndAt) + duration && endAt == St(te).CurrentActionEndAt
+
+//@ spec wagerOnly(p) = forall(j, 0, 9, j < len(p.AllowedActions) ==> p.AllowedActions[j] == "call" || p.AllowedActions[j] == "raise" || p.AllowedActions[j] == "allin"
+//@       || p.AllowedActions[j] == "check" || p.AllowedActions[j] == "fold" || p.AllowedActions[j] == "bet")
+//@ spec bettingRound(r) = r == "preflop" || r == "flop" || r == "turn" || r == "river"
+//@ spec now() = ghostnow()
+
+//@ func (*tableEngine).updateCurrentActionEndAt
+//@   property C15
+//@   requires te != nil && te.table != nil && St(te) != nil && gs != nil && 0 <= gs.Status.CurrentPlayer && gs.Status.CurrentPlayer < len(gs.Players)
+//@   requires gs.Players[gs.Status.CurrentPlayer] != nil && 0 <= len(gs.Players[gs.Status.CurrentPlayer].AllowedActions) && len(gs.Players[gs.Status.CurrentPlayer].AllowedActions) <= 9
+//@   modifies St(te).CurrentActionEndAt
+//@   loop 0 unroll 9
+//@   ensures deadline-published: playing(te) && event == pokerface.GameEvent_RoundStarted && bettingRound(gs.Status.Round)
+//@             && len(gs.Players[gs.Status.CurrentPlayer].AllowedActions) > 0 && !gs.Players[gs.Status.CurrentPlayer].Acted && wagerOnly(gs.Players[gs.Status.CurrentPlayer])
+//@             ==> St(te).CurrentActionEndAt == now() + te.table.Meta.ActionTime
+//@   ensures otherwise-untouched: !(playing(te) && event == pokerface.GameEvent_RoundStarted && bettingRound(gs.Status.Round)
+//@             && len(gs.Players[gs.Status.CurrentPlayer].AllowedActions) > 0 && !gs.Players[gs.Status.CurrentPlayer].Acted && wagerOnly(gs.Players[gs.Status.CurrentPlayer]))
+//@             ==> unchanged(St(te).CurrentActionEndAt)
+
+// ---- hand life cycle: settle, continue, pause-or-deal-on (C01 C05 C07 C08 C14 C15) -------------------
+
+//@ func (*game).runGameStateUpdater
+//@   trusted starts the goroutine that feeds handleGameState (go statement + channel receive: outside the subset)
+//@   modifies nothing
+
+//@ spec Res(te) = St(te).GameState.Result
+// what the table assumes of a settled hand state handed back by the backend: one result per hand entry,
+// each naming a distinct valid entry, and Final = the stack the hand started with + Changed
+//@ spec ResultOK(te) = St(te).GameState != nil && GsShape(St(te).GameState) && Res(te) != nil && len(Res(te).Players) == len(GPI(te)) && len(St(te).GameState.Players) == len(GPI(te))
+//@     && forall(r, 0, 10, r < len(Res(te).Players) ==> Res(te).Players[r] != nil && 0 <= Res(te).Players[r].Idx && Res(te).Players[r].Idx < len(GPI(te))
+//@           && Res(te).Players[r].Final == St(te).GameState.Players[Res(te).Players[r].Idx].Bankroll + Res(te).Players[r].Changed)
+//@     && forall(k, 0, 10, k < len(St(te).GameState.Players) && !St(te).GameState.Players[k].Fold ==> St(te).GameState.Players[k].Combination != nil)
+//@     && forall(a, 0, 10, forall(b, 0, 10, a < b && b < len(Res(te).Players) ==> Res(te).Players[a].Idx != Res(te).Players[b].Idx))
+//@     && forall(a, 0, 10, forall(b, 0, 10, a < b && b < len(GPI(te)) ==> GPI(te)[a] != GPI(te)[b]))
+// the stack each entry started the hand with is still the player's bankroll (no top-up while the hand ran)
+//@ spec StacksInSync(te) = forall(k, 0, 10, k < len(GPI(te)) ==> St(te).GameState.Players[k].Bankroll == PS(te)[GPI(te)[k]].Bankroll)
+//@ spec isHandEntry(te, i) = exists(k, 0, 10, k < len(GPI(te)) && GPI(te)[k] == i)
+
+//@ func (*tableEngine).refreshNextBBOrderPlayerIDs
+//@   trusted placeholder until the C06 contract lands: computes a list of player ids, touches nothing
+//@   modifies nothing
+
+//@ spec resIdx(te, r) = Res(te).Players[r].Idx
+//@ spec resPlayer(te, r) = PS(te)[GPI(te)[resIdx(te, r)]]
+//@ spec showdownClear(te) = forall(i, 0, 10, i < len(PS(te)) ==> !PS(te)[i].GameStatistics.IsShowdownWinning && !PS(te)[i].GameStatistics.ShowdownWinningChance)
+
+//@ func (*tableEngine).settleGame
+//@   property C01 C02 C07 C14
+//@   returns alive
+//@   requires TableWF(te) && HandShape(te) && ResultOK(te) && StacksInSync(te) && StatsInv(te) && showdownClear(te) && ref(te.sm) != 0 && typeis(te.sm, "*seat_manager.seatManager")
+//@   modifies St(te).Status, St(te).NextBBOrderPlayerIDs, forall(i, 0, 10, PS(te)[i].Bankroll), forall(i, 0, 10, PS(te)[i].GameStatistics.ShowdownWinningChance),
+//@            forall(i, 0, 10, PS(te)[i].GameStatistics.IsShowdownWinning), te.table.UpdateAt, te.table.UpdateSerial, log
+//@   assume at call Rank).GetWinners : winners-are-contributors: 0 <= len(result0) && len(result0) <= 10 && forall(j, 0, 10, j < len(result0) ==> 0 <= result0[j] && result0[j] < len(GPI(te)))
+//@   assert at entry : distinct-players: forall(a, 0, 10, forall(b, 0, 10, a < b && b < len(Res(te).Players) ==> resPlayer(te, a) != resPlayer(te, b)))
+//@   assert at entry : entries-are-players: forall(r, 0, 10, r < len(Res(te).Players) ==> resPlayer(te, r) != nil && exists(i, 0, 10, i < len(PS(te)) && PS(te)[i] == resPlayer(te, r) && isHandEntry(te, i)))
+//@   assert at entry : stacks-by-entry: forall(r, 0, 10, r < len(Res(te).Players) ==> St(te).GameState.Players[resIdx(te, r)].Bankroll == resPlayer(te, r).Bankroll
+//@             && St(te).GameState.Players[resIdx(te, r)] != nil && 0 <= GPI(te)[resIdx(te, r)] && GPI(te)[resIdx(te, r)] < len(PS(te)))
+//@   assert at entry : outsiders-differ: forall(r, 0, 10, forall(i, 0, 10, r < len(Res(te).Players) && i < len(PS(te)) && !isHandEntry(te, i) ==> resPlayer(te, r) != PS(te)[i]))
+//@   loop 0 unroll 10
+//@   loop 1 unroll 10
+//@   loop 2 unroll 10
+//@   loop 3 unroll 10
+//@   ensures settled: St(te).Status == TableStateStatus_TableGameSettled
+//@   ensures each-result-credited-to-its-player: forall(r, 0, 10, r < len(Res(te).Players) ==> resPlayer(te, r).Bankroll == old(resPlayer(te, r).Bankroll) + Res(te).Players[r].Changed)
+//@   ensures everyone-else-untouched: forall(i, 0, 10, i < len(PS(te)) && !isHandEntry(te, i) ==> PS(te)[i].Bankroll == old(PS(te)[i].Bankroll))
+//@   ensures showdown-win-implies-chance: forall(i, 0, 10, i < len(PS(te)) ==> (PS(te)[i].GameStatistics.IsShowdownWinning ==> PS(te)[i].GameStatistics.ShowdownWinningChance))
+
+//@ func (*tableEngine).continueGame$2
+//@   property C07 C08
+//@   returns err
+//@   requires te != nil && te.table != nil && St(te) != nil && St(te).BlindState != nil && 0 <= len(PS(te)) && len(PS(te)) <= 10
+//@   requires forall(i, 0, 10, i < len(PS(te)) ==> PS(te)[i] != nil)
+//@   requires 0 <= len(alivePlayers) && len(alivePlayers) <= 10 && forall(i, 0, 10, i < len(alivePlayers) ==> alivePlayers[i] != nil)
+//@   requires ref(te.ogm) != 0 && typeis(te.ogm, "*open_game_manager.openGameManager") && OgmWF(te.ogm)
+//@   modifies St(te).Status, te.ogm.state.GameCount, te.ogm.state.Participants, te.table.UpdateAt, te.table.UpdateSerial, log
+//@   ensures closed-or-released-stays-put: old(St(te).Status) == TableStateStatus_TableClosed || te.isReleased ==> unchanged(St(te).Status) && noCall()
+//@   ensures pauses-iff-break-or-too-few: !(old(St(te).Status) == TableStateStatus_TableClosed || te.isReleased) ==>
+//@             (St(te).Status == TableStateStatus_TablePausing <==> St(te).BlindState.Level == -1 || cnt(i, 0, 10, i < len(PS(te)) && PS(te)[i].Bankroll > 0) < te.table.Meta.TableMinPlayerCount
+//@                  || old(St(te).Status) == TableStateStatus_TablePausing)
+//@   ensures otherwise-arms-the-gate: !(old(St(te).Status) == TableStateStatus_TableClosed || te.isReleased) && St(te).BlindState.Level != -1
+//@             && cnt(i, 0, 10, i < len(PS(te)) && PS(te)[i].Bankroll > 0) >= te.table.Meta.TableMinPlayerCount && old(St(te).Status) == TableStateStatus_TableGameStandby
+//@             ==> te.ogm.state.GameCount == St(te).GameCount + 1 && callfn(ncalls() - 1) == "(*syncsaga.ReadyGroup).Start"
+//@   ensures gate-has-two-when-two-can-play: !(old(St(te).Status) == TableStateStatus_TableClosed || te.isReleased) && St(te).BlindState.Level != -1
+//@             && cnt(i, 0, 10, i < len(PS(te)) && PS(te)[i].Bankroll > 0) >= te.table.Meta.TableMinPlayerCount && old(St(te).Status) == TableStateStatus_TableGameStandby
+//@             && cnt(i, 0, 10, i < len(PS(te)) && PS(te)[i].IsIn && PS(te)[i].Bankroll > 0) >= 2
+//@             ==> len(te.ogm.state.Participants) >= 2
